@@ -232,6 +232,10 @@ func SessionNext(rc *RunCtx) *Step {
 			return &Step{Op: "sleep", Dur: "25h"}
 		case "hk_compact":
 			return &Step{Op: "housekeeping", Flag: "compact"}
+		case "force_compact":
+			return &Step{Op: "admin", Flag: "force_compact"}
+		case "compact":
+			return &Step{Op: "admin", Flag: "compact"}
 		case "bg":
 			if len(rc.W.Parked()) == 0 {
 				continue
